@@ -15,6 +15,11 @@ CLAIMED = {
   text='Decides: (a) the complete first-level decision tree of the scanner - every punctuator spelling, its token kind, maximal munch against every longer punctuator/comment/pp-number continuation, classification of all 257 first characters, literal prefixes, the ".." push-back; (b) the pp-number and identifier continuation sets for every character and exponent state; (c) the keyword table (sorted, spelling->kind vs oracle, nothing extra, binary search correct for every table position and gap, applied in next()). String/char literal and comment scanners, and the character reader (splices), are NOT decided here.',
   note='Trusts clang 14 front end, lib/eai.py, the models of nextchar/bufadd/ungetc and the ctype models ("C" locale - no setlocale call, rule C20.a), oracle lists PUNCT/KEYWORDS in props/c13.py (C11 6.4.1, 6.4.6, C23, GNU).',
   design='5/C13'),
+ 'C04': dict(
+  technique='AST extraction of the fold-arm table of eval.c (carrier member x host operator x class) + abstract interpretation of eval() over value-class partitions (trap classes, boundary values) compared with C11 6.3/6.5/6.6',
+  text='Decides structural clauses: every fold arm applies the host operator of its token to the carrier member its signedness class demands and all operator/class combinations have arms; folds always pass the wrap step; no fold can execute a trapping host division (exact over the classes that determine trapping); the cast and logical folds give the C-mandated result on a boundary-value partition (finite, stated as non-exhaustive); consumers test constness before reading the value. Numeric equality for all operand values is NOT decided (host arithmetic trusted).',
+  note='Trusts clang 14 front end, lib/eai.py (its C integer/float semantics, union-member reinterpretation), oracle tables in props/c04.py.',
+  design='5/C04'),
  'C01': dict(
   technique='abstract interpretation (partial evaluation of the lowering functions over the static type/operator descriptor domain) + AST table extraction vs C11/QBE oracle tables',
   text='Decides structural clauses only: the instruction-selection, conversion, load/store, truthiness and bit-field shift tables that every compiled program is lowered through are extracted from the current source by an abstract interpreter and compared exhaustively (over the finite descriptor domain) with oracle tables written from C11 and the QBE manual; sibling switches are checked for exhaustiveness. Semantic equivalence of emitted IL for arbitrary programs is NOT decided.',
